@@ -85,8 +85,35 @@ def rows_of(t, W):
     return t.tolist()
 
 
+# utterance names: by default u000, u001, ...; a case may carry its own list (`names`, sorted as the data set sorts
+# them - by code point) with ids that are prefixes of each other, contain the characters file names allow (space, dot,
+# dash, the file suffix itself) or sort differently as numbers than as strings
+WEIRD = sorted(["-", "0", "00", "B", "U1", "a", "a b", "a-b", "a.b", "a.pt", "a_b", "ab", "u", "u.", "u1", "u10", "u2",
+                "\u00e9", "~", "a.pt.pt"])
+_NAMES = [None]
+
+
+def set_names(case):
+    if case.get("names") is not None:
+        _NAMES[0] = list(case["names"])
+    elif case.get("weird"):
+        _NAMES[0] = WEIRD
+    else:
+        _NAMES[0] = None
+
+
 def uname(i):
-    return "u%03d" % i
+    return _NAMES[0][i] if _NAMES[0] is not None else "u%03d" % i
+
+
+def _subset(case):
+    """value of params.subset_ids: None = unset; else the kept names plus the decoys that are to be excluded for
+    another reason (a missing companion file)"""
+    dec = case.get("decoys") or []
+    if not any(d[2] == "subset" for d in dec):
+        return None
+    keep = [uname(i) for i in range(len(case["lens"]))] + [d[0] for d in dec if d[2] != "subset"]
+    return keep or ["zz-not-there"]
 
 
 def make_dir(root, case):
@@ -106,6 +133,15 @@ def make_dir(root, case):
         if refs is not None:
             torch.save(ref_tensor(ref_rows(i, refs[i], case["Wf"]), case["Wf"]),
                        os.path.join(root, "ref", uname(i) + ".pt"))
+    # decoys: utterances on disk that are NOT part of the data set - excluded by params.subset_ids ("subset": all
+    # files present) or because a companion file is missing ("noali" / "noref")
+    for j, (name, T, how) in enumerate(case.get("decoys") or []):
+        torch.save(torch.tensor(feat_of(90 + j, T, case["F"]), dtype=torch.float).view(T, case["F"]),
+                   os.path.join(root, "feat", name + ".pt"))
+        if has_ali and how != "noali":
+            torch.save(torch.tensor(ali_of(90 + j, T), dtype=torch.long), os.path.join(root, "ali", name + ".pt"))
+        if refs is not None and how != "noref":
+            torch.save(ref_tensor(ref_rows(90 + j, 1, case["Wf"]), case["Wf"]), os.path.join(root, "ref", name + ".pt"))
 
 
 def make_lang_dir(root, case):
@@ -113,6 +149,8 @@ def make_lang_dir(root, case):
     os.makedirs(root)
     for i, R in enumerate(case["lens"]):
         torch.save(ref_tensor(ref_rows(i, R, case["Wf"]), case["Wf"]), os.path.join(root, uname(i) + ".pt"))
+    for j, (name, R, how) in enumerate(case.get("decoys") or []):
+        torch.save(ref_tensor(ref_rows(90 + j, R, case["Wf"]), case["Wf"]), os.path.join(root, name + ".pt"))
 
 
 def orders_for(case, n, count):
@@ -131,6 +169,8 @@ def orders_for(case, n, count):
 
 
 def ids_of(uttids):
+    if _NAMES[0] is not None:
+        return [_NAMES[0].index(u) if u in _NAMES[0] else 4000 for u in uttids]
     return [int(u[1:]) for u in uttids]
 
 
@@ -195,7 +235,19 @@ def _tables(dl, n):
     return [[int(i2b[i]) for i in range(n)], [int(b2s[j]) for j in range(len(b2s))]]
 
 
-def _epochs(mk, case, canon):
+def _alternate(its, conv):
+    got, live, turn = [[], []], [True, True], 0
+    while any(live):
+        if live[turn]:
+            try:
+                got[turn].append(conv(next(its[turn])))
+            except StopIteration:
+                live[turn] = False
+        turn = 1 - turn
+    return got
+
+
+def _epochs(mk, case, canon, extra=None):
     """Shared driver for the three loaders.  mk(init_epoch) builds a loader.  Returns
     {'err': kind} (constructor raised) or {'ok': {...}} with per-epoch len / index batches /
     collated batches and the results of the (seed, epoch) metamorphic relations."""
@@ -235,6 +287,15 @@ def _epochs(mk, case, canon):
             if got != seq:
                 out["meta"].append("two interleaved iterators of one batch sampler deliver other batches than two "
                                    "successive ones: %s vs %s" % (got, seq))
+        if case.get("inter2"):
+            # the same at the level of the loader: two live iterators of one loader (collated batches of epochs e0, e0+1)
+            E, G = mk(e0), mk(e0)
+            seq = [[canon(b) for b in E] for _ in range(2)]
+            got = _alternate([iter(G), iter(G)], canon)
+            if got != seq:
+                out["meta"].append("two interleaved iterators of one loader deliver other batches than two successive passes")
+        if extra is not None:
+            out["meta"] += extra(A)
         cols = []
         for j in range(k + 1):
             out["len"].append(int(len(A)))
@@ -264,19 +325,55 @@ def _epochs(mk, case, canon):
     return {"ok": out}
 
 
+def _set_subset(p, case):
+    sub = _subset(case)
+    if sub is not None:
+        p.subset_ids = sub
+    return p
+
+
+def _loader(cls, case, e, data, p, dp, ds_kw, flags):
+    """the public constructor under the case's calling convention.  flags = [shuffle, batch_first, sort_batch] (spect,
+    lang) or [shuffle] (cw)"""
+    entry = case.get("entry", "path")
+    if entry == "pos":
+        if len(flags) == 3:
+            return cls(data, p, dp, flags[0], flags[1], flags[2], e, "raise", case["seed"], **ds_kw)
+        return cls(data, p, dp, flags[0], e, case["seed"], **ds_kw)
+    kw = dict(zip(("shuffle", "batch_first", "sort_batch"), flags))
+    kw["seed"] = case["seed"]
+    if not (case.get("omit_defaults") and e == 0):
+        kw["init_epoch"] = e
+    if case.get("omit_defaults") and not case["shuffle"]:
+        del kw["seed"]
+    if dp is not None:
+        kw["data_params"] = dp
+    return cls(data, p, **kw, **ds_kw)
+
+
 def run_spect(case, root):
-    from pydrobert.torch.data import SpectDataLoader, SpectDataLoaderParams
+    from pydrobert.torch.data import (SpectDataLoader, SpectDataLoaderParams, SpectDataParams, SpectDataSet,
+                                      DynamicLengthDataLoaderParams)
 
     make_dir(root, case)
     has_alis, has_ids = not case["sa"], not case["su"]
     W = 1 if (case["tokens_only"] or case["Wf"] == 1) else 3
+    entry, shared = case.get("entry", "path"), {}
+    lkw = dict(batch_size=case["bs"], num_length_buckets=case["nb"], size_batch_by_length=case["dyn"], drop_last=case["drop"])
 
     def mk(e):
-        p = SpectDataLoaderParams(batch_size=case["bs"], num_length_buckets=case["nb"],
-                                  size_batch_by_length=case["dyn"], drop_last=case["drop"])
-        return SpectDataLoader(root, p, shuffle=case["shuffle"], batch_first=case["bf"], sort_batch=case["sort"],
-                               init_epoch=e, seed=case["seed"], suppress_uttids=case["su"],
-                               suppress_alis=case["sa"], tokens_only=case["tokens_only"])
+        ds_kw = dict(suppress_uttids=case["su"], suppress_alis=case["sa"], tokens_only=case["tokens_only"])
+        if entry == "split":
+            p, dp = DynamicLengthDataLoaderParams(**lkw), _set_subset(SpectDataParams(), case)
+        else:
+            p = _set_subset(SpectDataLoaderParams(**lkw), case)
+            dp = p if entry == "alias" else None
+        data = root
+        if entry == "dataset":  # one data set object serves every loader of the case
+            if "ds" not in shared:
+                shared["ds"] = SpectDataSet(root, params=p, **ds_kw)
+            data, ds_kw = shared["ds"], {}
+        return _loader(SpectDataLoader, case, e, data, p, dp, ds_kw, [case["shuffle"], case["bf"], case["sort"]])
 
     return _epochs(mk, case, lambda b: canon_spect(b, has_alis, has_ids, W))
 
@@ -288,17 +385,27 @@ def canon_lang(batch, has_ids, W):
 
 
 def run_lang(case, root):
-    from pydrobert.torch.data import LangDataLoader, LangDataLoaderParams
+    from pydrobert.torch.data import (LangDataLoader, LangDataLoaderParams, LangDataParams, LangDataSet,
+                                      DynamicLengthDataLoaderParams)
 
     make_lang_dir(root, case)
     W = 1 if (case["tokens_only"] or case["Wf"] == 1) else 3
+    entry, shared = case.get("entry", "path"), {}
+    lkw = dict(batch_size=case["bs"], num_length_buckets=case["nb"], size_batch_by_length=case["dyn"], drop_last=case["drop"])
 
     def mk(e):
-        p = LangDataLoaderParams(batch_size=case["bs"], num_length_buckets=case["nb"],
-                                 size_batch_by_length=case["dyn"], drop_last=case["drop"])
-        return LangDataLoader(root, p, shuffle=case["shuffle"], batch_first=case["bf"], sort_batch=case["sort"],
-                              init_epoch=e, seed=case["seed"], suppress_uttids=case["su"],
-                              tokens_only=case["tokens_only"])
+        ds_kw = dict(suppress_uttids=case["su"], tokens_only=case["tokens_only"])
+        if entry == "split":
+            p, dp = DynamicLengthDataLoaderParams(**lkw), _set_subset(LangDataParams(), case)
+        else:
+            p = _set_subset(LangDataLoaderParams(**lkw), case)
+            dp = p if entry == "alias" else None
+        data = root
+        if entry == "dataset":
+            if "ds" not in shared:
+                shared["ds"] = LangDataSet(root, params=p, **ds_kw)
+            data, ds_kw = shared["ds"], {}
+        return _loader(LangDataLoader, case, e, data, p, dp, ds_kw, [case["shuffle"], case["bf"], case["sort"]])
 
     return _epochs(mk, case, lambda b: canon_lang(b, not case["su"], W))
 
@@ -311,18 +418,80 @@ def canon_cw(batch, has_ids):
             "sizes": batch[2].tolist() if has_ids else [], "ids": ids_of(batch[3]) if has_ids else []}
 
 
+_SEEDED = []
+
+
+def _seeded_cw_params():
+    """ContextWindowDataLoaderParams with a `seed` parameter (the loader falls back on params.seed when the argument
+    is None)"""
+    if not _SEEDED:
+        import param
+        from pydrobert.torch.data import ContextWindowDataLoaderParams
+
+        class SeededCWParams(ContextWindowDataLoaderParams):
+            seed = param.Integer(None, allow_None=True)
+
+        _SEEDED.append(SeededCWParams)
+    return _SEEDED[0]
+
+
 def run_cw(case, root):
-    from pydrobert.torch.data import ContextWindowDataLoader, ContextWindowDataLoaderParams
+    from pydrobert.torch import data as D
 
     make_dir(root, case)
+    entry, shared = case.get("entry", "path"), {}
+    via, cls_name, dep_args = case.get("seed_via", "arg"), case.get("cls", "main"), case.get("dep_args", False)
+    left, right, rev = case["left"], case["right"], case["reverse"]
 
     def mk(e):
-        p = ContextWindowDataLoaderParams(batch_size=case["bs"], drop_last=case["drop"], context_left=case["left"],
-                                          context_right=case["right"], reverse=case["reverse"])
-        return ContextWindowDataLoader(root, p, shuffle=case["shuffle"], init_epoch=e, seed=case["seed"],
-                                       suppress_uttids=case["su"])
+        ds_kw = dict(suppress_uttids=case["su"])
+        ctx = dict(context_left=left, context_right=right, reverse=rev)
+        if dep_args and entry != "dataset":
+            # deprecated spelling: left / right / reverse by argument; they override what the params say
+            ctx = dict(context_left=left + 1, context_right=right + 2, reverse=not rev)
+            ds_kw.update(left=left, right=right, reverse=rev)
+        seed = case["seed"]
+        if entry == "split":
+            p, dp = D.DataLoaderParams(batch_size=case["bs"], drop_last=case["drop"]), _set_subset(D.ContextWindowDataParams(**ctx), case)
+        else:
+            pcls = D.ContextWindowDataLoaderParams if via == "arg" else _seeded_cw_params()
+            p = _set_subset(pcls(batch_size=case["bs"], drop_last=case["drop"], **ctx), case)
+            dp = p if entry == "alias" else None
+            if via == "params":
+                p.seed, seed = case["seed"], None
+            elif via == "both":  # the argument wins, also when it is 0
+                p.seed = case["seed"] + 1
+        data = root
+        if entry == "dataset":
+            if "ds" not in shared:
+                shared["ds"] = D.ContextWindowDataSet(root, params=dp or p, **ds_kw)
+            data, ds_kw = shared["ds"], {}
+        c = dict(case, seed=seed)
+        if cls_name == "train":
+            return D.ContextWindowTrainingDataLoader(data, p, init_epoch=e, data_params=dp, seed=seed, shuffle=case["shuffle"], **ds_kw)
+        if cls_name == "eval":
+            return D.ContextWindowEvaluationDataLoader(data, p, data_params=dp, init_epoch=e, seed=seed, shuffle=case["shuffle"], **ds_kw)
+        return _loader(D.ContextWindowDataLoader, c, e, data, p, dp, ds_kw, [case["shuffle"]])
 
-    return _epochs(mk, case, lambda b: canon_cw(b, not case["su"]))
+    def extra(A):
+        """the data set against extract_window (frame by frame), get_windowed_utterance and an independent reading"""
+        ds, msgs = A.dataset, []
+        for i in range(len(ds)):
+            win = ds[i][0]
+            feat = ds.get_utterance_tuple(i)[0]
+            ok = tuple(win.shape) == (feat.size(0), 1 + left + right, feat.size(1))
+            ok = ok and torch.equal(ds.get_windowed_utterance(i)[0], win)
+            for t in range(feat.size(0) if ok else 0):
+                ok = ok and torch.equal(D.extract_window(feat, t, left, right, rev), win[t])
+                ok = ok and torch.equal(D.extract_window(feat, frame_idx=t, left=left, right=right, reverse=rev), win[t])
+            if ok and [[[int(v) for v in r] for r in w] for w in win.tolist()] != windows_of(
+                    [[int(v) for v in r] for r in feat.tolist()], left, right, rev):
+                ok = False
+            if not ok:
+                msgs.append("ContextWindowDataSet[%d] is not extract_window(feat, t, %d, %d, reverse=%s) for every frame t" % (i, left, right, rev))
+        return msgs
+
+    return _epochs(mk, case, lambda b: canon_cw(b, not case["su"]), extra)
 
 
 def run_bbs(case):
